@@ -600,6 +600,42 @@ def run_victim_blobwrap(sh, s, d, case):
         elif st._commit_lock.locked():
             sh.violation('c05:blobwrap:commit-lock-held-after-failed-transaction', {'site': site}, case)
         sh.case(digest('blobwrap', site), None)
+    # calls with a transaction other than the one being committed, at every step of a blob transaction: rejected without effect
+    from ZODB.POSException import StorageTransactionError
+    tcur = tid0
+    for at in ('after-begin', 'after-storeBlob', 'after-vote'):
+        t = TransactionMetaData(b'', b'with foreign calls')
+        other = TransactionMetaData(b'foreign', b'foreign')
+        st.tpc_begin(t)
+        if at != 'after-begin':
+            st.storeBlob(boid, tcur, blob_rec, tmpblob(b'bytes %s' % at.encode()), '', t)
+            if at == 'after-vote':
+                st.tpc_vote(t)
+        for name, call in (('storeBlob', lambda: st.storeBlob(boid, tcur, blob_rec, tmpblob(b'foreign'), '', other)),
+                           ('store', lambda: st.store(ooid, tcur, objs.cell_record('foreign'), '', other)),
+                           ('tpc_vote', lambda: st.tpc_vote(other)),
+                           ('tpc_finish', lambda: st.tpc_finish(other)),
+                           ('tpc_abort', lambda: st.tpc_abort(other))):
+            try:
+                call()
+                if name != 'tpc_abort':
+                    sh.violation('c05:blobwrap:foreign-transaction-%s-accepted' % name, {'at': at}, case)
+            except StorageTransactionError:
+                sh.count('foreign_transaction_calls_rejected')
+        if at == 'after-begin':
+            st.storeBlob(boid, tcur, blob_rec, tmpblob(b'bytes %s' % at.encode()), '', t)
+        if at != 'after-vote':
+            st.tpc_vote(t)
+        tcur = st.tpc_finish(t)
+        try:
+            with open(st.loadBlob(boid, tcur), 'rb') as f:
+                got = f.read()
+        except Exception as e:
+            got = type(e).__name__
+        if got != b'bytes %s' % at.encode():
+            sh.violation('c05:blobwrap:commit-after-foreign-calls-wrong', {'at': at, 'blob': repr(got)[:60]}, case)
+        sh.count('victims_committed_after_foreign_calls')
+    tid0 = tcur
     t = TransactionMetaData(b'', b'follow-up')
     st.tpc_begin(t)
     st.storeBlob(boid, tid0, blob_rec, tmpblob(b'next'), '', t)
